@@ -51,8 +51,10 @@ def units(tier):
         us.append(("time-millis", h))
         us.append(("time-micros", h))
     us.append(("time-micros-dense", 0))
+    for sec in (66355, 86399):  # every microsecond of two late seconds as well (values where a float product would round)
+        us.append(("time-micros-dense", sec))
     if tier == "thorough":
-        for sec in (3599, 43200, 86399):
+        for sec in (3599, 43200, 50000, 71999):
             us.append(("time-micros-dense", sec))
         for m in range(0, 1440, 10):
             us.append(("time-millis-dense", m, m + 10))
@@ -451,12 +453,35 @@ def run_unit(unit, tier):
                         ctx2.check(raw, v)
                     ctx2.check(TS_TYPES[0], v.replace(tzinfo=UTC))
                 ctx.n += ctx2.n
+            # the process stays in a non-UTC zone: AWARE datetimes denote an instant whatever the local zone is
+            class Zero(datetime.tzinfo):
+                def utcoffset(self, dt):
+                    return datetime.timedelta(0)
+
+                def dst(self, dt):
+                    return None
+
+                def tzname(self, dt):
+                    return "Z"
+
+            for zone in ("EST5", "JST-9"):
+                os.environ["TZ"] = zone
+                _time.tzset()
+                purge()
+                fa2 = setup_fastavro()
+                ctx3 = Ctx(fa2, res)
+                for tz in (UTC, datetime.timezone(datetime.timedelta(0), "GMT"), Zero(), datetime.timezone(datetime.timedelta(hours=5, minutes=30)), datetime.timezone(datetime.timedelta(hours=-5))):
+                    for v in (datetime.datetime(1970, 1, 1, tzinfo=tz), datetime.datetime(2021, 3, 4, 5, 6, 7, 8000, tzinfo=tz), datetime.datetime(1969, 12, 31, 23, 59, 59, 999000, tzinfo=tz),
+                              datetime.datetime(2023, 7, 1, 12, tzinfo=tz)):
+                        for raw in TS_TYPES[:2]:
+                            ctx3.check(raw, v)
+                ctx.n += ctx3.n
         finally:
             os.environ["TZ"] = "UTC"
             _time.tzset()
             purge()
             setup_fastavro()
-        res.sample({"type": "timestamps", "imported_under": ["EST5", "JST-9", "+05:45"], "written_under": "UTC"})
+        res.sample({"type": "timestamps", "imported_under": ["EST5", "JST-9", "+05:45"], "written_under": "UTC, and aware values under EST5 / JST-9"})
     elif kind == "uuid":
         raw = S("string", "uuid")
         vals = [uuid.UUID(int=0), uuid.UUID(int=(1 << 128) - 1)] + [uuid.UUID(int=1 << b) for b in range(128)]
